@@ -61,6 +61,8 @@ def axioms():
 
 
 def setup(world):
+    from vlib.pyvc import setmap
+    setmap.install(world)
     world.extra_axioms = lambda c: axioms()
     world.symbolic_sets = True
     world.opaque_globals[('yaql.language.utils', 'NO_VALUE')] = NV
@@ -113,7 +115,8 @@ def setup(world):
                 it.raise_('KeyError', idx, node=node)
             return True
         return NotImplemented
-    world.delitem_hooks = [delitem]
+    world.delitem_hooks = list(getattr(world, 'delitem_hooks', [])) + [
+        delitem]
 
     def contains(op, a, b, it):
         if op == 'in' and isinstance(a, SVal) and isinstance(
@@ -127,6 +130,17 @@ def setup(world):
 NORM = '("$1" if (name if name.startswith("$") else "$" + name) == "$" ' \
        'else (name if name.startswith("$") else "$" + name))'
 LOOKUP = 'ufn("ctx.lookup", %s, %s, %s)'
+
+
+class _kwargs:
+    """A **kwargs dict with the given (symbolic) entries."""
+    is_factory = True
+
+    def __init__(self, d):
+        self.d = d
+
+    def __call__(self, name, path):
+        return {k: t.fresh('kw_' + k) for k, t in self.d.items()}
 
 
 def contracts():
@@ -250,6 +264,84 @@ def contracts():
               'self._parent_context', 'name', 'default') + ')',
           'implies(ufn("ctx.own", self.linked_context, name) is NV and '
           'not ask_parent, result == default)'])
+    # ---- the function table of a layer: name -> set of overloads, plus the
+    # set of exclusively registered names. Whole-view postconditions: the
+    # touched entry AND everything else ------------------------------------
+    from vlib.pyvc import setmap
+    from vlib.pyvc.sym import TSet
+    SM = setmap.spec_functions()
+    tctx = obj('yaql.language.contexts.Context', _data=mapcell(),
+               _parent_context=TVal, _functions=setmap.setmapcell(),
+               _exclusive_funcs=TSet(TStr), _convention=TVal)
+    fdef = obj('yaql.language.specs.FunctionDefinition', name=TStr,
+               is_method=False)
+    OTHERS = ('forall(Str, lambda n: forall(Val, lambda f: implies('
+              'n != spec.name or f is not spec, bucket_has(self._functions, '
+              'n, f) == bucket_has(OLD__functions, n, f))))')
+    EXCL_OTHERS = ('forall(Str, lambda n: implies(n != spec.name, '
+                   '(n in self._exclusive_funcs) == '
+                   '(n in OLD__exclusive_funcs)))')
+    for tag, kw, flag in (('default', {}, 'False'),
+                          ('exclusive=x', {'exclusive': TBool},
+                           'kwargs["exclusive"]')):
+        c('Context.register_function',
+          name='contexts.Context.register_function/' + tag,
+          params=dict(self=tctx, spec=fdef, args=(), kwargs=_kwargs(kw)),
+          env=SM,
+          ensures=['bucket_has(self._functions, spec.name, spec)', OTHERS,
+                   # the layer becomes exclusive for the name iff asked to
+                   # (and stays so if it was)
+                   '(spec.name in self._exclusive_funcs) == (spec.name in '
+                   'OLD__exclusive_funcs or truthy(%s))'
+                   % flag.replace('kwargs', 'old_kwargs'), EXCL_OTHERS],
+          serves=('C17', 'C05'))
+    c('Context.delete_function',
+      params=dict(self=tctx, spec=fdef), env=SM,
+      ensures=['not bucket_has(self._functions, spec.name, spec)', OTHERS,
+               # (the statement is silent on what a removal does to the
+               # exclusive mark; the implemented rule - removing an overload
+               # of a name lifts the layer's exclusiveness for that name -
+               # is what hosts observe, so a change to it is reported)
+               'not (spec.name in self._exclusive_funcs)', EXCL_OTHERS],
+      serves=('C17', 'C05'))
+    # ---- child creation under a linked context: whatever the linked
+    # context is (plain, multi, linked to any depth) the child is a fresh
+    # context whose parent is the linked context itself ----------------------
+    plain = obj('yaql.language.contexts.Context', _data=mapcell(),
+                _parent_context=TVal, _functions=mapcell(),
+                _exclusive_funcs=TVal, _convention=TVal)
+    multi = obj('yaql.language.contexts.MultiContext',
+                _context_list=TSeq(TVal), _parent_context=TVal,
+                _convention=TVal)
+
+    def linked_to(x):
+        return obj('yaql.language.contexts.LinkedContext', linked_context=x,
+                   _parent_context=TVal, _convention=TVal)
+    for tag, inner in (('plain', plain), ('multi', multi),
+                       ('linked-plain', linked_to(plain)),
+                       ('linked-multi', linked_to(multi)),
+                       ('linked-linked-plain', linked_to(linked_to(plain)))):
+        c('LinkedContext.create_child_context',
+          name='contexts.LinkedContext.create_child_context/' + tag,
+          params=dict(self=linked_to(inner)),
+          ensures=['isinstance(result, "Context")',
+                   'result._parent_context is self',
+                   'result._convention is self._convention',
+                   'result is not self and result is not '
+                   'self.linked_context'],
+          serves=('C17',))
+    c('MultiContext.create_child_context',
+      params=dict(self=multi),
+      ensures=['isinstance(result, "Context")',
+               'result._parent_context is self',
+               'result._convention is self._convention'], serves=('C17',))
+    c('ContextBase.create_child_context',
+      name='contexts.Context.create_child_context',
+      params=dict(self=plain),
+      ensures=['isinstance(result, "Context")',
+               'result._parent_context is self',
+               'result._convention is self._convention',
+               'result is not self'], serves=('C17',))
     # ---- MultiContext writes: the merged own layer ------------------------
     c('MultiContext.__setitem__',
       params=dict(self=mctx, name=TStr, value=TVal),
@@ -277,6 +369,47 @@ def contracts():
                   invariant=['forall(range(0, n), lambda j: '
                              'ufn("ctx.own", self._context_list[j], item) '
                              'is NV)'])])
+    # ---- function registration / removal on composite contexts: the write
+    # goes to the first member (multi) / the linked context, a removal to
+    # every member, with the caller's arguments unchanged ----------------------
+    from contracts._util import tuple_of
+    for n in (0, 1, 2, 3):
+        c('MultiContext.delete_function',
+          name='contexts.MultiContext.delete_function/%d' % n,
+          params=dict(self=obj('yaql.language.contexts.MultiContext',
+                               _context_list=tuple_of(TVal, n),
+                               _parent_context=TVal, _convention=TVal),
+                      spec=TVal),
+          ensures=['len(calls) == %d' % n] + [
+              'calls[%d][0] == "m.delete_function" and calls[%d][1][0] == '
+              'self._context_list[%d] and calls[%d][1][1] == spec'
+              % (k, k, k, k) for k in range(n)],
+          serves=('C17',))
+    c('MultiContext.register_function',
+      name='contexts.MultiContext.register_function/exclusive=x',
+      params=dict(self=mctx, spec=TVal, args=(),
+                  kwargs=_kwargs({'exclusive': TBool})),
+      requires=mpre + ['len(self._context_list) >= 1'],
+      ensures=['len(calls) == 1 and calls[0][0] == '
+               '"m.register_function$exclusive" '
+               'and calls[0][1][0] == self._context_list[0] and '
+               'calls[0][1][1] == spec and len(calls[0][1]) == 3',
+               'calls[0][1][2] == old_kwargs["exclusive"]'],
+      serves=('C17',))
+    c('LinkedContext.delete_function', params=dict(self=lctx, spec=TVal),
+      ensures=['len(calls) == 1 and calls[0][0] == "m.delete_function" and '
+               'calls[0][1][0] == self.linked_context and '
+               'calls[0][1][1] == spec'], serves=('C17',))
+    c('LinkedContext.register_function',
+      name='contexts.LinkedContext.register_function/exclusive=x',
+      params=dict(self=lctx, spec=TVal, args=(),
+                  kwargs=_kwargs({'exclusive': TBool})),
+      ensures=['len(calls) == 1 and calls[0][0] == '
+               '"m.register_function$exclusive" '
+               'and calls[0][1][0] == self.linked_context and '
+               'calls[0][1][1] == spec and len(calls[0][1]) == 3',
+               'calls[0][1][2] == old_kwargs["exclusive"]'],
+      serves=('C17',))
     # ---- functions -----------------------------------------------------
     LAYER = 'ufn("ctx.layer", %s, name, val(predicate), use_convention)'
     EXCL = 'ufn("ctx.excl", %s, name, use_convention, ret="Bool")'
